@@ -29,6 +29,7 @@ def pairOut : Option (Float × Float) → String
 def handleC12 : Handler := fun st toks =>
   let log := leaf1 st "log"
   let exp := leaf1 st "exp"
+  let expm1 := leaf1 st "expm1"
   let pow := leaf2 st "pow"
   let lgamma := leaf1 st "lgamma"
   let logI0 := leaf1 st "logi0"
@@ -41,7 +42,7 @@ def handleC12 : Handler := fun st toks =>
   | "ll" :: "expweibull" :: a :: b :: d :: rest =>
     match takeFloats rest with
     | some (xs, _) =>
-      some (llOut (sumLogPdf (expWeibullLogPdf log exp pow (fOfTok a) (fOfTok b) (fOfTok d)) xs))
+      some (llOut (sumLogPdf (expWeibullLogPdf log expm1 pow (fOfTok a) (fOfTok b) (fOfTok d)) xs))
     | none => some "ERR parse"
   | "ll" :: "normal" :: l2pi :: mu :: sigma :: rest =>
     match takeFloats rest with
